@@ -1,7 +1,201 @@
 package main
 
-// verifyLemma builds the VC of a lemma (ghost procedure over real functions). Filled in later.
+import (
+	"fmt"
+	"go/types"
+
+	"golang.org/x/tools/go/ssa"
+)
+
+// verifyLemma builds the VC of a lemma: a ghost procedure
+//   var a, b T        universally quantified values
+//   requires P        assumption
+//   let r = f(a, b)   r := result of the REAL function f (inlined, or its contract when it has one)
+//   let x = e         pure specification expression
+//   assert Q          obligation
 func (p *Program) verifyLemma(l *Lemma) *VC {
 	vc := newVC(l.Key(), p.ss)
+	x := &Exec{vc: vc, prog: p, ss: p.ss, maxInline: 4}
+	var pkg *types.Package
+	if sp := p.byName[l.Pkg]; sp != nil {
+		pkg = sp.Pkg
+	}
+	n := vc.newNode("lemma")
+	st := newState()
+	entry := newState()
+	vars := map[string]Term{}
+	// a pseudo frame so that calls can be executed
+	fc := &FuncContract{Pkg: l.Pkg, Name: "lemma:" + l.Name, Props: l.Props, Loops: map[int]*LoopSpec{}}
+	fr := &Frame{id: 0, vals: map[ssa.Value]Term{}, places: map[ssa.Value]*Place{}, tuples: map[ssa.Value][]Term{}, closures: map[ssa.Value]*closureInfo{},
+		iterVar: map[ssa.Value]string{}, iterMap: map[ssa.Value]Term{}, callCount: map[string]int{}, contract: fc, depth: 1,
+		loopHeadState: map[*ssa.BasicBlock]*State{}, loopVariant: map[*ssa.BasicBlock]string{}}
+	x.top = nil
+	env := func() *Env {
+		return &Env{x: x, cur: st, old: entry, pkg: pkg, bound: map[string]Term{}, lookup: func(name string, cur bool) (Term, bool, error) {
+			t, ok := vars[name]
+			return t, ok, nil
+		}}
+	}
+	x.assumeAxioms(n, pkg, st)
+	fail := func(c Clause, err error) {
+		p.contractErrors = append(p.contractErrors, contractErr{Fn: l.Key(), Clause: c.Src, Err: err.Error(), Props: l.Props, Line: c.Line, File: c.File})
+	}
+	nAssert := 0
+	for _, s := range l.Stmts {
+		switch s.Kind {
+		case "var":
+			t, err := p.resolveType(s.Type, pkg)
+			if err != nil {
+				fail(s.Clause, err)
+				return vc
+			}
+			for _, name := range s.Names {
+				v := x.fresh("lv_"+name, t)
+				vars[name] = v
+				x.assumeAllocated(n, st, v)
+			}
+		case "requires":
+			f, err := x.trBool(s.Clause.Expr, env())
+			if err != nil {
+				fail(s.Clause, err)
+				continue
+			}
+			n.assume(f)
+		case "let":
+			e := s.Clause.Expr
+			if callee, recv, args, ok := p.resolveRealCall(e, vars, pkg); ok {
+				var argT []Term
+				bad := false
+				if recv != nil {
+					t, err := x.tr(recv, env())
+					if err != nil {
+						fail(s.Clause, err)
+						bad = true
+					}
+					argT = append(argT, t)
+				}
+				for _, a := range args {
+					t, err := x.tr(a, env())
+					if err != nil {
+						fail(s.Clause, err)
+						bad = true
+					}
+					argT = append(argT, t)
+				}
+				if bad {
+					continue
+				}
+				for i := range argT {
+					if i < len(callee.Params) {
+						argT[i] = x.coerceNil(argT[i], x.ss.sortOf(callee.Params[i].Type()))
+						argT[i].T = callee.Params[i].Type()
+					}
+				}
+				fr.fn = callee
+				c := &callCtx{x: x, fr: fr, n: n, st: st, args: argT, resTypes: resultTypes(callee.Signature)}
+				c.common = &ssa.CallCommon{Value: callee}
+				if fcc := p.contractFor(callee); fcc != nil {
+					x.applyContract(c, fcc, callee.Signature, callee.Params, calleeName(callee))
+				} else {
+					x.inlineCall(c, callee, nil)
+				}
+				n = c.n
+				for i, name := range s.Names {
+					if i < len(c.res) {
+						vars[name] = c.res[i]
+					}
+				}
+				continue
+			}
+			t, err := x.tr(e, env())
+			if err != nil {
+				fail(s.Clause, err)
+				continue
+			}
+			if len(s.Names) != 1 {
+				fail(s.Clause, fmt.Errorf("let with several names needs a function call"))
+				continue
+			}
+			vars[s.Names[0]] = t
+		case "assert":
+			f, err := x.trBool(s.Clause.Expr, env())
+			if err != nil {
+				fail(s.Clause, err)
+				continue
+			}
+			nAssert++
+			ob := &Obligation{Name: fmt.Sprintf("%s#assert#%d", l.Key(), nAssert), Kind: "lemma", Fn: l.Key(), Props: l.Props, Clause: s.Clause.Src, Pos: fmt.Sprintf("%s:%d", s.Clause.File, s.Clause.Line)}
+			vc.assert(n, f, ob)
+		}
+	}
+	ob := &Obligation{Name: l.Key() + "#cover", Kind: "cover", Fn: l.Key(), Props: l.Props, Clause: "lemma hypotheses are satisfiable", Expect: "sat"}
+	vc.assert(n, "true", ob)
 	return vc
+}
+
+// resolveRealCall recognises f(args) / recv.m(args) where f/m is a real function of the program.
+func (p *Program) resolveRealCall(e *Expr, vars map[string]Term, pkg *types.Package) (*ssa.Function, *Expr, []*Expr, bool) {
+	for e.Op == "paren" {
+		e = e.Args[0]
+	}
+	if e.Op != "call" {
+		return nil, nil, nil, false
+	}
+	callee := e.Args[0]
+	args := e.Args[1:]
+	switch callee.Op {
+	case "ident":
+		if pkg == nil {
+			return nil, nil, nil, false
+		}
+		if p.findSpec(callee.Name, pkg) != nil {
+			return nil, nil, nil, false
+		}
+		if fn := p.funcByKey[pkg.Name()+"."+callee.Name]; fn != nil {
+			return fn, nil, args, true
+		}
+	case "sel":
+		// pkg.F(...)
+		if id := callee.Args[0]; id.Op == "ident" {
+			if _, isVar := vars[id.Name]; !isVar {
+				if fn := p.funcByKey[id.Name+"."+callee.Name]; fn != nil {
+					return fn, nil, args, true
+				}
+			}
+		}
+		// method call on a variable expression: need its static type; only variables and field paths are typed here
+		if t := p.staticTypeOf(callee.Args[0], vars); t != nil {
+			if n, ok := types.Unalias(deref(t)).(*types.Named); ok && n.Obj().Pkg() != nil {
+				key := n.Obj().Pkg().Name() + "." + n.Obj().Name() + "." + callee.Name
+				if fn := p.funcByKey[key]; fn != nil {
+					return fn, callee.Args[0], args, true
+				}
+			}
+		}
+	}
+	return nil, nil, nil, false
+}
+
+func (p *Program) staticTypeOf(e *Expr, vars map[string]Term) types.Type {
+	switch e.Op {
+	case "paren":
+		return p.staticTypeOf(e.Args[0], vars)
+	case "ident":
+		if t, ok := vars[e.Name]; ok {
+			return t.T
+		}
+	case "sel":
+		bt := p.staticTypeOf(e.Args[0], vars)
+		if bt == nil {
+			return nil
+		}
+		if si := p.ss.structInfoOf(deref(bt)); si != nil {
+			for _, f := range si.fields {
+				if f.name == e.Name {
+					return f.typ
+				}
+			}
+		}
+	}
+	return nil
 }
